@@ -49,6 +49,8 @@ type vRelay struct {
 	skip int
 	// texts: receive-stream failures carry one of the server's status texts
 	texts bool
+	// delFail: DelCipherBox calls fail on a symbolic choice
+	delFail bool
 	// stalled: stream Sends block (flow control: nobody drains the stream)
 	// until the context the stream was opened with is cancelled
 	stalled bool
@@ -130,6 +132,10 @@ func (r *vRelay) NewCipherBox(ctx context.Context, in *hashmailrpc.CipherBoxAuth
 }
 
 func (r *vRelay) DelCipherBox(ctx context.Context, in *hashmailrpc.CipherBoxAuth, opts ...grpc.CallOption) (*hashmailrpc.DelCipherBoxResp, error) {
+	// deleting a mailbox is a relay call like any other: it may fail
+	if r.delFail && vBool("relay_del_fails") {
+		return nil, vErrStream
+	}
 	return &hashmailrpc.DelCipherBoxResp{}, nil
 }
 
